@@ -21,6 +21,9 @@ def r7(ctx):
 
 
 RULES = {
+    # "for Hermes maps every token resolves to the same enclosing function before and after": the scope lookup itself
+    "C09.R10": lambda ctx: __import__("rules.detrules", fromlist=["x"]).hermes_lookup(ctx, "C09.R10"),
+    "C09.RG": lambda ctx: __import__("rules.foundations", fromlist=["x"]).no_global_state(ctx, "C09.RG"),
     "C09.R9": lambda ctx: bldrules.builder_new(ctx, "C09.R9"),
     "C09.R9b": lambda ctx: bldrules.local_contents_only_when_missing(ctx, "C09.R9b"),
     "C09.R9c": lambda ctx: bldrules.rewrite_delegates(ctx, "C09.R9c"),
